@@ -665,6 +665,36 @@ func suiteSchema16(r *Rng, n int, thorough bool, o *Out) {
 		s1 := build(ord, opOrd, probe)
 		perm := r.Perm(nt)
 		s2 := build(perm, opOrd, false)
+		// a third build: every two-way pair is added half by half with AddRel; when every
+		// edit succeeds both ways the listing is the same as with AddTwoWayRel
+		allOK := true
+		s3 := &jsonapi.Schema{}
+		for _, i := range ord {
+			_ = s3.AddType(jsonapi.Type{Name: names[i]})
+		}
+		chk := &jsonapi.Schema{}
+		for _, i := range ord {
+			_ = chk.AddType(jsonapi.Type{Name: names[i]})
+		}
+		for _, i := range opOrd {
+			if ops[i].two {
+				r1 := ops[i].rel.Normalize()
+				r2 := r1.Invert()
+				e1 := s3.AddRel(r1.FromType, r1)
+				e2 := s3.AddRel(r2.FromType, r2)
+				if r1 == r2 {
+					e2 = nil // a self-inverse pair is one relationship
+				}
+				if e1 != nil || e2 != nil || chk.AddTwoWayRel(ops[i].rel) != nil {
+					allOK = false
+				}
+			} else {
+				e := s3.AddRel(ops[i].rel.FromType, ops[i].rel)
+				if e != nil || chk.AddRel(ops[i].rel.FromType, ops[i].rel) != nil {
+					allOK = false
+				}
+			}
+		}
 		rels1 := s1.Rels()
 		rels2 := s2.Rels()
 		pv := "ok"
@@ -714,6 +744,9 @@ func suiteSchema16(r *Rng, n int, thorough bool, o *Out) {
 			}
 			if !reflect.DeepEqual(rels1, rels2) {
 				pv = "FAIL:Rels() depends on the order in which types were added"
+			}
+			if allOK && !reflect.DeepEqual(rels1, s3.Rels()) {
+				pv = "FAIL:Rels() differs between a schema built with AddTwoWayRel and the same schema built half by half with AddRel"
 			}
 			for k := 0; k < 8 && pv == "ok"; k++ {
 				if !reflect.DeepEqual(s1.Rels(), rels1) {
